@@ -126,6 +126,47 @@ def iana(name):
     return z
 
 
+class DocsZone(datetime.tzinfo):
+    """a user-defined tzinfo written the way the `USTimeZone` example in the datetime documentation
+    is: it answers for datetimes that carry *this* tzinfo object; asked about None, a naive
+    datetime or a datetime of another zone it reports its standard offset.  The offsets are those
+    of the IANA zone it wraps, so the model sees the same zone."""
+
+    def __init__(self, z, name):
+        self._z = z
+        self._name = name
+        jan = datetime.datetime(2001, 1, 15, 12, tzinfo=z)
+        jul = datetime.datetime(2001, 7, 15, 12, tzinfo=z)
+        self._std = min(jan.utcoffset(), jul.utcoffset())
+
+    def utcoffset(self, dt):
+        if dt is None or dt.tzinfo is not self:
+            return self._std
+        return dt.replace(tzinfo=self._z).utcoffset()
+
+    def dst(self, dt):
+        if dt is None or dt.tzinfo is not self:
+            return datetime.timedelta(0)
+        return dt.replace(tzinfo=self._z).dst() or datetime.timedelta(0)
+
+    def tzname(self, dt):
+        return "Docs(%s)" % self._name
+
+    def fromutc(self, dt):
+        loc = dt.replace(tzinfo=UTC).astimezone(self._z)
+        return loc.replace(tzinfo=self)
+
+    def __repr__(self):
+        return "DocsZone(%r)" % self._name
+
+
+def docs(z):
+    """the DocsZone twin of an IANA ZoneSpec (same offsets, same model zone id)"""
+    if getattr(z, "_docs", None) is None:
+        z._docs = DocsZone(z.tzinfo, z.iana or z.label)
+    return z._docs
+
+
 def in_span(d):
     return datetime.date(1900, 1, 1) <= d <= datetime.date(2100, 12, 31)
 
@@ -173,6 +214,20 @@ def midnight_zone(rng, t_utc):
         off = off + rng.choice([-1, -1, -2, -2, -3, 0, 1, 2, -4])    # minute resolution: a real straddle
     off = max(-720, min(840, off))
     return fixed(off)
+
+
+def ambiguous_wall(rng, z):
+    """a naive wall-clock reading inside a repeated hour of the IANA ZoneSpec `z` (the end of a DST
+    period), or None: there `fold` alone says which of the two instants is meant"""
+    back = [(t, o1, o2) for (t, o2), (_, o1) in zip(z.utc_table[1:], z.utc_table[:-1])
+            if o1 > o2 and t > wall_us(datetime.datetime(1905, 1, 1))]
+    if not back:
+        return None
+    t, o_old, o_new = rng.choice(back)
+    w = t + o_new + rng.randrange(0, o_old - o_new, 1_000_000)
+    dd, r = divmod(w, US_DAY)
+    return datetime.datetime.combine(datetime.date.fromordinal(dd), datetime.time()) + \
+        datetime.timedelta(microseconds=r)
 
 
 def ambiguous_instant(rng):
